@@ -25,8 +25,8 @@ ENCODED = ["twisted.conch.ssh.channel:SSHChannel.write", "twisted.conch.ssh.chan
            "twisted.conch.ssh.connection:SSHConnection.ssh_CHANNEL_EXTENDED_DATA",
            "twisted.conch.ssh.connection:SSHConnection.adjustWindow",
            "twisted.conch.ssh.connection:SSHConnection.sendClose"]
-BOUNDS = {"quick": {"pk": 2, "hpk": 1, "hist": 4, "d": 3, "cap": 1 << 20},
-          "thorough": {"pk": 3, "hpk": 2, "hist": 4, "d": 4, "cap": 1 << 20}}
+BOUNDS = {"quick": {"pk": 2, "hpk": 1, "hist": 3, "d": 3, "cap": 1 << 20},
+          "thorough": {"pk": 3, "hpk": 1, "hist": 4, "d": 4, "cap": 1 << 20}}
 B = {}
 BOUNDS_TEXT = ("sender, inductive steps: remote window any int >= 0, max packet any int >= 1, buffered normal data "
                "and <= 2 buffered extended entries of any length <= pk*maxpacket (<= cap = 1 MiB), one operation "
@@ -47,7 +47,7 @@ ASSUMPTIONS = ["ropes: data content is never inspected by the code under test (a
                "representation invariant assumed for the sender inductive steps and checked to be re-established: "
                "data is buffered only while remoteWindowLeft == 0; the first buffered extended entry is "
                "non-empty; adjacent extended entries have different types; closing and not yet closed implies "
-               "something is buffered",
+               "something is buffered; unless closing, areWriting is off exactly while something is buffered",
                "level 1: the recording connection drops data after close and ignores a second close exactly "
                "like SSHConnection.sendData/sendClose (localClosed flag)",
                "level 2: the name `struct` in twisted.conch.ssh.connection is rebound for the duration of the "
@@ -241,6 +241,10 @@ def _inv(ch):
             return False
     if ch.localClosed and (len(ch.buf) > 0 or ch.extBuf):
         return False            # close is sent only with empty buffers
+    if not ch.closing:
+        # stopWriting()/startWriting() hints: writing is off exactly while something is buffered
+        if bool(ch.areWriting) != (not (len(ch.buf) > 0 or ch.extBuf)):
+            return False
     return True
 
 
